@@ -105,7 +105,7 @@ class World:
     Everything else (custom-message / named proxies, the two other managers, the middlewares) is made on first use."""
 
     __slots__ = ("ext", "loc", "st", "mgr", "cv", "px", "pl", "pt", "pcv", "dyn", "lazy",
-                 "py", "ptn", "pcn", "pf", "la", "lb", "sa", "sb", "pz", "open", "pv")
+                 "py", "ptn", "pcn", "pf", "la", "lb", "sa", "sb", "pz", "open", "pv", "it")
 
     def __init__(self, ext=False):
         self.ext = ext
@@ -119,6 +119,7 @@ class World:
         self.pcv = LocalProxy(self.cv)
         self.pv = st("v")                                 # NAMED stack proxy: attribute "v" of the top object
         self.dyn = None
+        self.it = None                                    # an open iterator over the Local: harness-held, shared
         self.lazy = {}
         self.open = {}
         if ext:
@@ -427,6 +428,14 @@ def do(w, op, cid):
     if op[:3] == "cv=":
         w.cv.set(val(op[3:]))
         return None
+    if op == "iter-open":
+        w.it = iter(loc)           # opened here and now, in this context; consumed by a later step (maybe elsewhere)
+        return None
+    if op == "iter-drain":
+        it, w.it = w.it, None
+        if it is None:
+            return "NOTOPEN"
+        return tuple(sorted([(k, render(v)) for k, v in it]))
     if op == "mkproxy":
         w.dyn = w.loc("x")
         return None
@@ -483,13 +492,14 @@ def do(w, op, cid):
 
 class G:
     """Model globals: the heap of by-value shared lists, whether the late proxy exists, open middleware iterators."""
-    __slots__ = ("heap", "dyn", "open", "boxes")
+    __slots__ = ("heap", "dyn", "open", "boxes", "it")
 
     def __init__(self):
         self.heap = []
         self.dyn = False
         self.open = set()
         self.boxes = []
+        self.it = None
 
 
 # (sorted attr items, stack, var, twin attr items, twin stack); attr values: int or ("ref", k)
@@ -656,6 +666,14 @@ def m_do(g, m, op, cid):
         return m, None
     if op[:3] == "cv=":
         return (d, s, val(op[3:]), d2, s2), None
+    if op == "iter-open":
+        g.it = d                   # the snapshot of the OPENING context at opening time
+        return m, None
+    if op == "iter-drain":
+        snap, g.it = g.it, None
+        if snap is None:
+            return m, "NOTOPEN"
+        return m, tuple((k, render(_val(g, v))) for k, v in snap)
     if op == "mkproxy":
         g.dyn = True
         return m, None
@@ -730,7 +748,11 @@ FALSY_LINE = ["set x=0", "push 0", "push F", "cv=0", "pop", "rd top", "rd x", "r
 BOX = ["pushbox 1", "pushbox 2", "rebind 3", "rebind 4", "pop", "push 2", "release", "proxy v", "proxy top"]
 BOX6 = ["pushbox 1", "pushbox 2", "rebind 3", "pop", "release", "proxy v"]
 BOX_LINE = ["pushbox 1", "pushbox 2", "rebind 3", "pop", "rd top"]
-ALPH = {"box": BOX, "box6": BOX6, "boxline": BOX_LINE, "falsy": FALSY, "falsy10": FALSY10, "falsy6": FALSY6, "falsyline": FALSY_LINE, "full": FULL, "mid": MID, "fullline": FULL_LINE, "writes": WRITES, "core6": CORE6, "core4": CORE4,
+# wave 5 (seed C18-5a): iteration SPLIT over two steps - the iterator is opened in one context and consumed later,
+# by the same or by another context; it must yield the opening context's attributes as they were when it was opened
+ITER = ["iter-open", "iter-drain", "set x=2", "set y=1", "del x", "release", "cleanup", "newlist", "append"]
+ITER6 = ["iter-open", "iter-drain", "set x=2", "set y=1", "del x", "release"]
+ALPH = {"iter": ITER, "iter6": ITER6, "box": BOX, "box6": BOX6, "boxline": BOX_LINE, "falsy": FALSY, "falsy10": FALSY10, "falsy6": FALSY6, "falsyline": FALSY_LINE, "full": FULL, "mid": MID, "fullline": FULL_LINE, "writes": WRITES, "core6": CORE6, "core4": CORE4,
         "line8": LINE8, "proxy": PROXY, "proxy10": PROXY10, "proxy6": PROXY6, "twin": TWIN, "twin6": TWIN6, "mw": MW, "mw6": MW6,
         "hop": HOP, "hop6": HOP6}
 EXT_ALPH = {"proxy", "proxy10", "proxy6", "twin", "twin6", "mw", "mw6", "hop", "hop6"}   # families run in the extended world
@@ -762,6 +784,10 @@ QUICK = [
     ("S3", "core4", 1, ("used",), ("thr", "aio")),
     ("S2", "writes", 2, ("used",), ("aio",)),
     ("PC", "core6", 2, ("empty", "used"), ("aio",)),
+    ("S2", "iter6", 2, ("empty", "used"), ("ctx",)),
+    ("PC", "iter6", 2, ("used",), ("ctx",)),
+    ("S2", "iter6", 2, ("used",), ("aio",)),
+    ("S2", "iter6", 1, ("used",), ("thr",)),
     ("S2", "box", 2, ("empty", "boxed"), ("ctx",)),
     ("PC", "box6", 2, ("empty", "boxed"), ("ctx",)),
     ("S2", "box6", 1, ("empty",), ("thr",)),
@@ -802,6 +828,11 @@ THOROUGH = [
     ("S3", "core4", 2, ("empty",), ("ctx",)),
     ("S3", "core4", 2, ("empty", "used"), ("aio",)),
     ("S3", "writes", 1, ("empty", "used"), ("ctx", "thr", "aio")),
+    ("S2", "iter", 2, ("empty", "used"), ("ctx", "aio")),
+    ("S2", "iter6", 2, ("empty", "used"), ("thr", "aiox")),
+    ("S2", "iter6", 3, ("used",), ("ctx",)),
+    ("PC", "iter", 2, ("empty", "used"), ("ctx", "aio")),
+    ("PC", "iter6", 2, ("used",), ("thr",)),
     ("S2", "box", 2, ("empty", "boxed"), ("ctx", "aio", "thr")),
     ("S2", "box6", 3, ("empty", "boxed"), ("ctx",)),
     ("PC", "box", 2, ("empty", "boxed"), ("ctx", "aio")),
@@ -907,7 +938,7 @@ def outcome_tokens(start, progs):
             m, r = m_do(g, m, op, c)
             if r is None:
                 cls = "None"
-            elif isinstance(r, str) and r in ("AE", "RE", "IE", "NOPROXY", "NOITER", "NOBOX"):
+            elif isinstance(r, str) and r in ("AE", "RE", "IE", "NOPROXY", "NOITER", "NOBOX", "NOTOPEN"):
                 cls = r
             elif op.startswith("bat"):
                 cls = "unbound" if isinstance(r[0], OneOf) else "bound"
@@ -1168,6 +1199,8 @@ def check_lines(R, sname, progs, bound, spawn_of, ext=False):
 
 def run_line_unit(unit, R, tier):
     _k, arr, alphabet, k, sname, bound, shard, nshards = unit
+    if {"iter-open", "iter-drain", "mkproxy", "proxy dyn"} & set(ALPH[alphabet]):
+        raise core.Broken(f"line family {unit}: ops on process-global harness state are schedule dependent")
     if ("newlist" in STARTS[sname] and {"append", "iadd", "setitem0"} & set(ALPH[alphabet])) or (
             any(o.startswith("pushbox") for o in STARTS[sname]) and any(o.startswith("rebind") for o in ALPH[alphabet])):
         raise core.Broken(f"line family {unit}: a by-value shared list makes results schedule dependent")
@@ -1298,6 +1331,7 @@ def finalize(R, tier):
         need |= {"out:get x:val", "out:get x:AE", "out:top:val", "out:top:None", "out:proxy cv:unbound",
                  "out:bat cv:bound", "out:bat cv:unbound", "out:tt:append:RE", "out:tt:del x:AE",
                  "out:ex:get x:AE", "out:tt:del x:None", "out:tt:append:None"}
+    need |= {"op:iter-open", "op:iter-drain", "out:iter-drain:val", "out:iter-drain:NOTOPEN"}
     need |= {"op:pushbox 1", "op:rebind 3", "out:proxy v:bound", "out:proxy v:unbound", "out:rebind 3:None",
              "out:rebind 3:NOBOX", "start:boxed"}
     need |= {"op:push 0", "op:push e", "op:set x=0", "op:cv=0", "out:proxy top:bound-falsy", "out:proxy x:bound-falsy",
